@@ -58,7 +58,4 @@ NOT_APPLICABLE.update({
     "C05": "SIMD kernels == portable kernel: no installed contract verifier reaches them (assembly has no front end; "
            "CBMC crashes on the C vector intrinsics; Kani's ARX equivalence query did not terminate in 25 min on four "
            "solvers). It is the stated assumption under C01-C04/C09.",
-    "C12": "b3sum end-to-end behaviour is a property of a process (argv, stdin/stdout text, exit status, file system) "
-           "of a binary that cannot be built offline unmodified; function contracts reach only fragments, which are "
-           "decided under C03/C11/C13/C14.",
 })
